@@ -97,7 +97,7 @@ pub fn run(tier: &str) -> i32 {
     let rep = Report::new("C16", tier, "model_checking");
     let thorough = rep.thorough();
     let maxlen = if thorough { 5 } else { 4 };
-    rep.rule(&format!("(a) ALL operation sequences of length <= {maxlen} over add(id in {{0,1,5}}, c in {{AA,BB}}) / remove(id) / save+reopen(sync|async) from fresh sync and async objects, executed without state merging, grouped by (final content, compression, writer flavour): one byte image per group; (b) all 720 [thorough: 5040] insertion orders of 6 [7] tiles; (c) every small map written from memory, from a reopened copy and from a mixed object: identical bytes; (d) 64 archives written in {} separate OS processes: identical digests; (e) rewrite: to_writer(from_bytes(b)) == b for every archive of the C01 corpus, foreign archives idempotent after one normalising rewrite; non-trivial = groups with >= 2 histories", if thorough { 16 } else { 4 }));
+    rep.rule(&format!("(a) ALL operation sequences of length <= {maxlen} over add(id in {{0,1,5}}, c in {{AA,BB}}) / remove(id) / save+reopen(sync|async) from fresh sync and async objects, executed without state merging, grouped by (final content, compression, writer flavour): one byte image per group; (b) all 720 [thorough: 5040] insertion orders of 6 [7] tiles; (b2) all 120 insertion orders of 5 metadata keys x nested-key order x remove/re-insert detour; (c) every small map written from memory, from a reopened copy and from a mixed object: identical bytes; (d) 64 archives written in {} separate OS processes: identical digests; (e) rewrite: to_writer(from_bytes(b)) == b for every archive of the C01 corpus, foreign archives idempotent after one normalising rewrite; non-trivial = groups with >= 2 histories", if thorough { 16 } else { 4 }));
     rep.assume("compressed bytes are compared as produced by the same codec configuration within one writer flavour (sync and async writers use different encoders and are never compared with each other)");
 
     // ---- (a) histories
@@ -182,6 +182,51 @@ pub fn run(tier: &str) -> i32 {
         }
     }
     rep.count("insertion_orders", perms.len() as u64);
+
+    // ---- (b2) metadata: insertion order of keys (top level and nested) and remove/re-insert detours
+    {
+        let keys = ["name", "attribution", "bounds", "zz", "a"];
+        let mut kperms: Vec<Vec<u64>> = Vec::new();
+        permute(&mut (0..keys.len() as u64).collect(), 0, &mut kperms);
+        for c in if thorough { COMPS.to_vec() } else { vec![Compression::None, Compression::GZip] } {
+            for api in APIS {
+                let build = |order: &Vec<u64>, nested_rev: bool, detour: bool| -> Result<Vec<u8>, String> {
+                    let mut l = Logical::new(c);
+                    l.tiles.insert(1, b"t".to_vec());
+                    for k in order.iter() {
+                        let k = keys[*k as usize];
+                        let mut inner = serde_json::Map::new();
+                        let inner_keys: Vec<&str> = if nested_rev { vec!["y", "m", "b"] } else { vec!["b", "m", "y"] };
+                        for ik in inner_keys {
+                            inner.insert(ik.to_string(), json!(format!("{k}-{ik}")));
+                        }
+                        l.meta.insert(k.to_string(), json!({"v": k, "o": inner}));
+                    }
+                    if detour {
+                        let v = l.meta.remove("bounds").unwrap();
+                        l.meta.insert("bounds".into(), v);
+                        l.meta.insert("tmp".into(), json!(1));
+                        l.meta.remove("tmp");
+                    }
+                    write_lib(&l, api)
+                };
+                let first = build(&kperms[0], false, false);
+                let mut n = 0u64;
+                for p in kperms.iter() {
+                    for (rev, detour) in [(false, false), (true, false), (false, true)] {
+                        n += 1;
+                        if build(p, rev, detour) != first {
+                            rep.violation("metadata-order-dependent-bytes", format!("[{} {}] equal metadata built with key insertion order {:?} (nested reversed: {rev}, remove/re-insert detour: {detour}) serialises differently", api.name(), cname(c), p.iter().map(|i| keys[*i as usize]).collect::<Vec<_>>()), json!({"kind":"meta-order","order":p,"nested_rev":rev,"detour":detour,"comp":cname(c),"api":api.name()}));
+                            break;
+                        }
+                    }
+                }
+                rep.eval(n);
+                rep.nontrivial(n);
+                rep.count("metadata_build_orders", n);
+            }
+        }
+    }
 
     // ---- (c) provenance
     let nids = if thorough { 6 } else { 5 };
